@@ -217,3 +217,149 @@ Proof.
   unfold rules_chars_ok in Hc. rewrite forallb_forall in Hc.
   apply (wf_chars_compilable (ge_size (snd r))); auto.
 Qed.
+
+(* ---- the parser copies literal tokens into the tree: CHAR literals of the tree are CHAR tokens ---- *)
+Definition tok_char_ok (t : tok) : bool := match t with TLit true s => Nat.leb 2 (length s) | _ => true end.
+Definition toks_char_ok (ts : list tok) : Prop := Forall (fun t => tok_char_ok t = true) ts.
+
+Definition acc_chars (s : st) : Prop :=
+  match s with
+  | SOrLoop acc | STermList acc => forallb chars_ok acc = true
+  | SRemLoop x | SIncLoop x => chars_ok x = true
+  | _ => True
+  end.
+
+Lemma forallb_app_true {A} (p : A -> bool) a b : forallb p a = true -> forallb p b = true -> forallb p (a ++ b) = true.
+Proof. intros Ha Hb. rewrite forallb_app, Ha, Hb. reflexivity. Qed.
+
+Lemma mkseq_chars acc : forallb chars_ok acc = true -> chars_ok (fst (mkseq acc)) = true.
+Proof. destruct acc as [|a [|b t]]; simpl; auto. rewrite andb_true_r. auto. Qed.
+
+Lemma Forall_tail {A} (p : A -> Prop) x l : Forall p (x :: l) -> Forall p l.
+Proof. intros H. inversion H; auto. Qed.
+
+Lemma P_chars : forall f s ts x r n, P f s ts = Some (x, r, n) -> toks_char_ok ts -> acc_chars s ->
+  toks_char_ok r /\ (forall e, x = Some e -> chars_ok e = true).
+Proof.
+  induction f as [|f IH]; intros s ts x r n H Ht Ha; [discriminate|].
+  destruct s; cbn [P] in H; cbn [acc_chars] in Ha.
+  - (* SExpr *)
+    destruct (P f (STermList []) ts) as [[[[t|] r1] n1]|] eqn:E; try discriminate.
+    + destruct (IH _ _ _ _ _ E Ht eq_refl) as [Hr Hx].
+      destruct r1 as [|t0 r0]; [injection H as <- <- <-; split; auto|].
+      destruct t0; try (injection H as <- <- <-; split; auto; fail).
+      destruct (P f (SOrLoop [t]) (TOr :: r0)) as [[[x' r'] m]|] eqn:E'; try discriminate.
+      injection H as <- <- <-. apply (IH _ _ _ _ _ E' Hr). cbn [acc_chars forallb]. rewrite (Hx t eq_refl). reflexivity.
+    + injection H as <- <- <-. destruct (IH _ _ _ _ _ E Ht eq_refl) as [Hr Hx]. split; auto.
+  - (* SOrLoop *)
+    destruct ts as [|t0 r0]; [injection H as <- <- <-; split; auto; intros e He; injection He as <-; exact Ha|].
+    destruct t0; try (injection H as <- <- <-; split; auto; intros e He; injection He as <-; exact Ha).
+    destruct (P f (STermList []) r0) as [[[[t|] r1] n1]|] eqn:E; try discriminate.
+    + destruct (IH _ _ _ _ _ E (Forall_tail _ _ _ Ht) eq_refl) as [Hr Hx].
+      destruct (P f (SOrLoop (acc ++ [t])) r1) as [[[x' r'] m]|] eqn:E'; try discriminate.
+      injection H as <- <- <-. apply (IH _ _ _ _ _ E' Hr). cbn [acc_chars]. apply forallb_app_true; auto.
+      cbn [forallb]. rewrite (Hx t eq_refl). reflexivity.
+    + injection H as <- <- <-. destruct (IH _ _ _ _ _ E (Forall_tail _ _ _ Ht) eq_refl) as [Hr Hx]. split; auto.
+  - (* STermList *)
+    destruct (P f STerm ts) as [[[[t|] r1] n1]|] eqn:E; try discriminate.
+    + destruct (IH _ _ _ _ _ E Ht I) as [Hr Hx].
+      destruct (P f (STermList (acc ++ [t])) r1) as [[[x' r'] m]|] eqn:E'; try discriminate.
+      injection H as <- <- <-. apply (IH _ _ _ _ _ E' Hr). cbn [acc_chars]. apply forallb_app_true; auto.
+      cbn [forallb]. rewrite (Hx t eq_refl). reflexivity.
+    + destruct (IH _ _ _ _ _ E Ht I) as [Hr _]. pose proof (mkseq_chars acc Ha) as Hm. destruct (mkseq acc) as [e m].
+      injection H as <- <- <-. split; auto. intros e' He. injection He as <-. exact Hm.
+  - (* STerm *)
+    destruct (P f STerm2 ts) as [[[[t|] r1] n1]|] eqn:E; try discriminate.
+    + destruct (IH _ _ _ _ _ E Ht I) as [Hr Hx].
+      destruct (P f (SRemLoop t) r1) as [[[x' r'] m]|] eqn:E'; try discriminate.
+      injection H as <- <- <-. apply (IH _ _ _ _ _ E' Hr). cbn [acc_chars]. auto.
+    + injection H as <- <- <-. destruct (IH _ _ _ _ _ E Ht I) as [Hr Hx]. split; auto.
+  - (* SRemLoop *)
+    destruct ts as [|t0 r0]; [injection H as <- <- <-; split; auto; intros e He; injection He as <-; exact Ha|].
+    destruct t0; try (injection H as <- <- <-; split; auto; intros e He; injection He as <-; exact Ha).
+    destruct o; [|injection H as <- <- <-; split; auto; intros e He; injection He as <-; exact Ha].
+    destruct (P f STerm2 r0) as [[[[y|] r1] n1]|] eqn:E; try discriminate.
+    + destruct (IH _ _ _ _ _ E (Forall_tail _ _ _ Ht) I) as [Hr Hx].
+      destruct (P f (SRemLoop (EBin BRem x0 y)) r1) as [[[x' r'] m]|] eqn:E'; try discriminate.
+      injection H as <- <- <-. apply (IH _ _ _ _ _ E' Hr). cbn [acc_chars chars_ok]. rewrite Ha, (Hx y eq_refl). reflexivity.
+    + injection H as <- <- <-. destruct (IH _ _ _ _ _ E (Forall_tail _ _ _ Ht) I) as [Hr Hx]. split; auto; try discriminate.
+  - (* STerm2 *)
+    destruct (P f SFactor ts) as [[[[t|] r1] n1]|] eqn:E; try discriminate.
+    + destruct (IH _ _ _ _ _ E Ht I) as [Hr Hx].
+      destruct (P f (SIncLoop t) r1) as [[[x' r'] m]|] eqn:E'; try discriminate.
+      injection H as <- <- <-. apply (IH _ _ _ _ _ E' Hr). cbn [acc_chars]. auto.
+    + injection H as <- <- <-. destruct (IH _ _ _ _ _ E Ht I) as [Hr Hx]. split; auto.
+  - (* SIncLoop *)
+    destruct ts as [|t0 r0]; [injection H as <- <- <-; split; auto; intros e He; injection He as <-; exact Ha|].
+    destruct t0; try (injection H as <- <- <-; split; auto; intros e He; injection He as <-; exact Ha).
+    destruct o; [injection H as <- <- <-; split; auto; intros e He; injection He as <-; exact Ha|].
+    destruct (P f SFactor r0) as [[[[y|] r1] n1]|] eqn:E; try discriminate.
+    + destruct (IH _ _ _ _ _ E (Forall_tail _ _ _ Ht) I) as [Hr Hx].
+      destruct (P f (SIncLoop (EBin BInc x0 y)) r1) as [[[x' r'] m]|] eqn:E'; try discriminate.
+      injection H as <- <- <-. apply (IH _ _ _ _ _ E' Hr). cbn [acc_chars chars_ok]. rewrite Ha, (Hx y eq_refl). reflexivity.
+    + injection H as <- <- <-. destruct (IH _ _ _ _ _ E (Forall_tail _ _ _ Ht) I) as [Hr Hx]. split; auto; try discriminate.
+  - (* SFactor *)
+    destruct ts as [|t0 r0]; [injection H as <- <- <-; split; auto; try discriminate|].
+    destruct t0; try solve [injection H as <- <- <-; split; auto; try discriminate].
+    + injection H as <- <- <-. split; [eapply Forall_tail; eauto|]. intros e He. injection He as <-. reflexivity.
+    + injection H as <- <- <-. split; [eapply Forall_tail; eauto|]. intros e He. injection He as <-.
+      inversion Ht as [|? ? Hk _]; subst. cbn [tok_char_ok] in Hk. cbn [chars_ok]. destruct k; auto.
+    + destruct (P f SFactor r0) as [[[[y|] r1] n1]|] eqn:E; try discriminate.
+      * injection H as <- <- <-. destruct (IH _ _ _ _ _ E (Forall_tail _ _ _ Ht) I) as [Hr Hx]. split; auto.
+        intros e He. injection He as <-. cbn [chars_ok]. auto.
+      * injection H as <- <- <-. destruct (IH _ _ _ _ _ E (Forall_tail _ _ _ Ht) I) as [Hr Hx]. split; auto.
+        intros e He. injection He as <-. reflexivity.
+    + destruct (P f SExpr r0) as [[[[y|] r1] n1]|] eqn:E; try discriminate.
+      * destruct (IH _ _ _ _ _ E (Forall_tail _ _ _ Ht) I) as [Hr Hx].
+        destruct r1 as [|t1 r1]; [injection H as <- <- <-; split; auto|].
+        destruct t1; injection H as <- <- <-; (split; [eapply Forall_tail; eauto|auto]).
+      * injection H as <- <- <-. destruct (IH _ _ _ _ _ E (Forall_tail _ _ _ Ht) I) as [Hr Hx]. split; auto.
+Qed.
+
+Lemma lambda_loop_forall (p : tok -> Prop) : forall ts l, Forall p ts -> Forall p (fst (lambda_loop l ts)).
+Proof.
+  induction ts as [|t ts IH]; intros l H; [constructor|]. inversion H as [|? ? Ht Hts]; subst.
+  destruct t; cbn [lambda_loop]; auto. destruct l as [|[|l]]; cbn [fst]; auto.
+Qed.
+Lemma expect_forall (p : tok -> Prop) want ts : Forall p ts -> Forall p (fst (expect want ts)).
+Proof. intros H. destruct ts; cbn [expect fst]; auto. inversion H; auto. Qed.
+
+Lemma rule_body_chars f ts e r n : parse_rule_body f ts = Some (e, r, n) -> toks_char_ok ts ->
+  toks_char_ok r /\ chars_ok e = true.
+Proof.
+  unfold parse_rule_body. intros H Ht.
+  pose proof (expect_forall _ is_assign ts Ht) as H1. destruct (expect is_assign ts) as [r1 n1]. cbn [fst] in H1.
+  destruct (P f SExpr r1) as [[[[x|] r2] n2]|] eqn:E; try discriminate.
+  destruct (P_chars _ _ _ _ _ _ E H1 I) as [H2 Hx].
+  assert (H3 : toks_char_ok (fst (match r2 with
+        | TArrow :: r => let '(r', n') := expect is_lb r in (fst (lambda_loop 1 r'), n')
+        | _ => (r2, 0) end))).
+  { destruct r2 as [|t r0]; auto. destruct t; auto.
+    pose proof (expect_forall _ is_lb r0 (Forall_tail _ _ _ H2)) as H4. destruct (expect is_lb r0) as [r' n']. cbn [fst] in *.
+    apply lambda_loop_forall. exact H4. }
+  destruct (match r2 with TArrow :: r => let '(r', n') := expect is_lb r in (fst (lambda_loop 1 r'), n') | _ => (r2, 0) end) as [r3 n3].
+  cbn [fst] in H3. pose proof (expect_forall _ is_semi r3 H3) as H4. destruct (expect is_semi r3) as [r4 n4]. cbn [fst] in H4.
+  injection H as <- <- _. split; auto.
+Qed.
+
+Lemma file_loop_chars F : forall k ts acc n rs m, parse_file_loop k F ts acc n = Ok (rs, m) ->
+  toks_char_ok ts -> forallb (fun r => chars_ok (snd r)) acc = true -> rules_chars_ok rs = true.
+Proof.
+  induction k as [|k IH]; intros ts acc n rs m H Ht Ha; [discriminate|]. cbn [parse_file_loop] in H.
+  assert (Hrev : rules_chars_ok (rev acc) = true).
+  { unfold rules_chars_ok. apply forallb_forall. intros x Hx. apply in_rev in Hx. rewrite forallb_forall in Ha. auto. }
+  destruct ts as [|t r]; [injection H as <- _; exact Hrev|].
+  destruct t; try (injection H as <- _; exact Hrev).
+  destruct (parse_rule_body F r) as [[[e r'] n1]|] eqn:E; [|discriminate].
+  destruct (rule_body_chars _ _ _ _ _ E (Forall_tail _ _ _ Ht)) as [Hr He].
+  eapply IH; eauto. cbn [forallb snd]. rewrite He, Ha. reflexivity.
+Qed.
+
+Lemma parse_file_chars ts rs n : parse_file ts = Ok (rs, n) -> toks_char_ok ts -> rules_chars_ok rs = true.
+Proof. unfold parse_file. intros H Ht. eapply file_loop_chars; eauto. Qed.
+
+(* tpl.New on a token stream: parse without error  =>  NewEx does not panic, assuming only that the
+   scanner's CHAR tokens carry both quotes *)
+Lemma new_no_panic_tokens unq ts rs : unq_ok unq -> toks_char_ok ts -> parse_file ts = Ok (rs, 0) ->
+  no_panic (compile unq rs).
+Proof. intros Hu Ht Hp. eapply new_no_panic; eauto. eapply parse_file_chars; eauto. Qed.
